@@ -46,7 +46,7 @@ def run(pid, tier, seed):
                                     % (r.violated, n, r.tail))
         return r
 
-    tdir = os.path.join(vlib.BUILD, "traces")
+    tdir = vlib.trace_dir()
     os.makedirs(tdir, exist_ok=True)
     tp = os.path.join(tdir, "%s-%s-%d.ndjson" % (pid, tier, seed))
     maxn, dense, every = (160, 32, 16) if q else (1200, 64, 60)
